@@ -18,6 +18,7 @@ def parseFail : Char → Option Fail
   | '0' => some .ok
   | '1' => some .exc
   | '2' => some .cancel
+  | '3' => some .xcancel
   | _ => none
 
 def parseCtx (s : String) : Option Ctx :=
@@ -111,9 +112,14 @@ reply `c0=<obs> c1=… ret=<t|never> open=<n|->`, obs `-` | comma list of `<kind
 open Aio.C20.Drain in
 def parseReq (s : String) : Option Req :=
   match s.toList with
-  | 'g' :: d => do pure ⟨.get, ← (String.ofList d).toNat?⟩
-  | 'f' :: d => do pure ⟨.postFull, ← (String.ofList d).toNat?⟩
-  | 'p' :: d => do pure ⟨.postPart, ← (String.ofList d).toNat?⟩
+  | 'g' :: d => do pure ⟨.get, ← (String.ofList d).toNat?, 0⟩
+  | 'f' :: d => do pure ⟨.postFull, ← (String.ofList d).toNat?, 0⟩
+  | 'p' :: d => do pure ⟨.postPart, ← (String.ofList d).toNat?, 0⟩
+  | 'l' :: d => do pure ⟨.postLate, ← (String.ofList d).toNat?, 0⟩
+  | 's' :: d =>
+    match (String.ofList d).splitOn "." with
+    | [h, w] => do pure ⟨.get, ← h.toNat?, ← w.toNat?⟩
+    | _ => none
   | _ => none
 
 open Aio.C20.Drain in
@@ -143,6 +149,7 @@ def showObs : Obs → Option String
   | .hr t => some s!"hr@{t}"
   | .resp t => some s!"resp@{t}"
   | .hx t => some s!"hx@{t}"
+  | .sx t => some s!"sx@{t}"
   | .close t => some s!"close@{t}"
   | .done _ => none
 
